@@ -54,6 +54,14 @@ def gen_study(rng, root, shared=False):
     log = os.path.join(root, "RUNLOG")
     plan = os.path.join(root, "PLAN")
     steps = []
+    # a quarter of the studies name their own shell (`batch: shell: /bin/sh`, dash here): the script is
+    # run by the interpreter its first line names, and it is that interpreter's exit status which
+    # decides - the endings below exit 0 under any bash, with the planned code otherwise (seeded
+    # change C19-n ran every local script with the default adapter's `/bin/bash <script>`)
+    own_shell = rng.random() < 0.25
+    last_forms = LAST if not own_shell else [
+        'if [ -n "$BASH_VERSION" ]; then exit 0; fi; exit ${code:-0}',
+        'case "$(readlink /proc/$$/exe)" in *bash) exit 0;; esac; ( exit ${code:-0} )']
     for i, nm in enumerate(names):
         dep = []
         for p in names[:i]:
@@ -62,7 +70,7 @@ def gen_study(rng, root, shared=False):
                 dep.append(p)
             elif r < 0.45 and params:
                 dep.append(p + "_*")
-        cmd = SCRIPT.format(log=log, plan=plan, last=rng.choice(LAST), name=nm)
+        cmd = SCRIPT.format(log=log, plan=plan, last=rng.choice(last_forms), name=nm)
         if params and (shared or rng.random() < 0.6):
             cmd = "# uses $(%s)\n" % rng.choice(list(params)) + cmd
         run = {"cmd": cmd}
@@ -76,6 +84,8 @@ def gen_study(rng, root, shared=False):
             "env": {"variables": {"OUTPUT_PATH": root}}, "study": steps}
     if params:
         spec["global.parameters"] = params
+    if own_shell:
+        spec["batch"] = {"type": "local", "shell": "/bin/sh"}
     return spec, log, plan
 
 
